@@ -1,7 +1,7 @@
 """C08 — letter case, layout and comments never change what a program means."""
 import time, re
 import z3
-from framework import kernel, Finding, fn_paths
+from framework import kernel, Finding, fn_paths, Part, par_map, merge_part, replay_factory
 from mirsym.machine import *
 from mirsym.mirread import Unsupported
 from . import lexcommon as LC
@@ -9,6 +9,8 @@ from mirsym import models
 
 
 # ---------------------------------------------------------------------------------------------- K1a keyword case
+_CTX = None
+
 @kernel('K1a lexer.keyword_case')
 def k1a(ctx, kr):
     LM = LC.lexmodel(ctx)
@@ -325,4 +327,116 @@ def _replay_case_names(a, b):
         return same_name and c1 != c2, {'consistent_spelling_codes': c1, 'respelled_codes': c2, 'declared': d, 'used': u}
     return rp
 
-KERNELS = [k1a, k1b, k2, k4]
+# ---------------------------------------------------------------------------------------------- K5 textual keywords matched inside grammar actions
+TEXTUAL = {
+    'duration-unit-d': ('PROGRAM p\nVAR\n  x : TIME := T#1', 'd', ';\nEND_VAR\nEND_PROGRAM\n'),
+    'duration-unit-h': ('PROGRAM p\nVAR\n  x : TIME := T#1', 'h', ';\nEND_VAR\nEND_PROGRAM\n'),
+    'duration-unit-m': ('PROGRAM p\nVAR\n  x : TIME := T#1', 'm', ';\nEND_VAR\nEND_PROGRAM\n'),
+    'duration-unit-s': ('PROGRAM p\nVAR\n  x : TIME := T#1.5', 's', ';\nEND_VAR\nEND_PROGRAM\n'),
+    'duration-unit-ms': ('PROGRAM p\nVAR\n  x : TIME := T#1', 'ms', ';\nEND_VAR\nEND_PROGRAM\n'),
+    'duration-prefix-t': ('PROGRAM p\nVAR\n  x : TIME := ', 't', '#1s;\nEND_VAR\nEND_PROGRAM\n'),
+    'date-prefix-d': ('PROGRAM p\nVAR\n  x : DATE := ', 'd', '#2020-01-01;\nEND_VAR\nEND_PROGRAM\n'),
+    'task-interval': ('CONFIGURATION c\nRESOURCE r ON PLC\nTASK t(', 'interval', ' := T#1s, PRIORITY := 1);\nPROGRAM i WITH t : prog;\nEND_RESOURCE\nEND_CONFIGURATION\n'),
+    'task-priority': ('CONFIGURATION c\nRESOURCE r ON PLC\nTASK t(', 'priority', ' := 1);\nPROGRAM i WITH t : prog;\nEND_RESOURCE\nEND_CONFIGURATION\n'),
+    'action-qualifier-n': ('FUNCTION_BLOCK fb\nVAR\n  done : BOOL;\nEND_VAR\nINITIAL_STEP Start:\nEND_STEP\nSTEP Work:\n  act(', 'n', ');\nEND_STEP\nTRANSITION FROM Start TO Work\n  := TRUE;\nEND_TRANSITION\nACTION act:\n  done := TRUE;\nEND_ACTION\nEND_FUNCTION_BLOCK\n'),
+    'access-direction': ('PROGRAM p\nVAR\n  t : INT;\nEND_VAR\nVAR_ACCESS\n  ac : r.p.x : INT ', 'read_write', ';\nEND_VAR\n  t := 1;\nEND_PROGRAM\n'),
+    'boolean-true': ('PROGRAM p\nVAR\n  x : BOOL := ', 'true', ';\nEND_VAR\nEND_PROGRAM\n'),
+    'typed-literal-int': ('PROGRAM p\nVAR\n  x : INT := ', 'int', '#5;\nEND_VAR\nEND_PROGRAM\n'),
+    'resource-on': ('CONFIGURATION c\nRESOURCE r ', 'on', ' PLC\nTASK t(PRIORITY := 1);\nPROGRAM i WITH t : prog;\nEND_RESOURCE\nEND_CONFIGURATION\n'),
+}
+
+def _k5_job(job):
+    name, = job
+    from . import C10 as K10
+    ctx = _CTX; part = Part()
+    pre, word, post = TEXTUAL[name]
+    P = ctx.program()
+    k_parse = P.find_fn('ironplc-parser', 'parse_program')
+    k_opt = [k for k in P.items if k[0] == 'ironplc-parser' and re.search(r'ParseOptions as (std::default::)?Default>::default|options::<impl at [^>]*>::default', k[1])]
+    k_eq = P.impl_all.get(('Library', 'PartialEq', 'eq'))
+    holder = {}; st = {}
+    M = Machine(P, stubs=K10.dyn_lexer_stubs(ctx, holder), max_steps=400_000_000)
+    def entry(M):
+        bits = []; bs = []
+        for i, ch in enumerate(word):
+            if not ch.isalpha(): bs.append(ord(ch)); continue
+            b = M.fresh_bv('c%d' % i, 8); M.assume(z3.Or(b == ord(ch.lower()), b == ord(ch.upper()))); bs.append(b); bits.append((b, ch))
+        st['bits'] = bits
+        fid = Ref(Cell(Agg('FileId', [Str('f.st')])))
+        def parse(text_bytes):
+            opts = Ref(Cell(M.call_fn(k_opt[0], []) if k_opt else Agg('ParseOptions', [False])))
+            return M.call_fn(k_parse, [Ref(Cell(Str(text_bytes))), fid, opts])
+        canon = parse(list((pre + TEXTUAL_CANON.get(name, word.upper()) + post).encode()))
+        if canon.disc != 0: return ('template-rejected', None)
+        r = parse(list(pre.encode()) + bs + list(post.encode()))
+        if r.disc != 0: return ('rejected', None)
+        return ('ok', M.call_fn(k_eq[0], [Ref(Cell(canon.f[0])), Ref(Cell(r.f[0]))]) if k_eq else True)
+    def on_path(M, pr):
+        part.paths += 1
+        if pr.inconclusive: part.inconc('%s: %s' % (name, pr.inconclusive)); return
+        s = z3.Solver(); s.add(*pr.pc)
+        def wit(role, what, cond):
+            s.push(); s.add(cond); part.queries += 1
+            if s.check() == z3.sat:
+                m = s.model(); w = ''.join(chr(m.eval(b, True).as_long()) if not isinstance(b, int) else chr(b) for b in _word_bytes(st['bits'], word))
+                src = pre + w + post
+                part.add(role, '%s: spelling %r %s' % (name, w, what), {'spelling': w, 'source': src}, ('textual_keyword', (pre + TEXTUAL_CANON.get(name, word.upper()) + post, src)))
+            s.pop()
+        part.nontrivial += 1
+        if pr.panic: wit('C08/K5/%s/panic' % name, 'makes the parser panic: ' + pr.panic.msg[:50], z3.BoolVal(True)); return
+        kind, same = pr.result
+        if kind == 'template-rejected': part.inconc('%s: canonical template does not parse' % name); return
+        if kind == 'rejected': wit('C08/K5/%s/rejected' % name, 'is rejected although the canonical spelling is accepted', z3.BoolVal(True)); return
+        wit('C08/K5/%s/different-library' % name, 'parses to a different library than the canonical spelling', z3.Not(tobool(same)) if not isinstance(same, bool) else z3.BoolVal(not same))
+        if len(part.validate) < 1 and s.check() == z3.sat:
+            m = s.model(); w = ''.join(chr(m.eval(b, True).as_long()) if not isinstance(b, int) else chr(b) for b in _word_bytes(st['bits'], word))
+            part.validate.append(('textual_keyword', (pre + TEXTUAL_CANON.get(name, word.upper()) + post, pre + w + post)))
+        if len(part.samples) < 1: part.samples.append({'keyword': name, 'letters': len(st['bits'])})
+    M.explore(entry, on_path)
+    part.queries += M.stats['smt']; part.encoded = set(M.encoded); part.models = set(M.models_used)
+    return part
+
+TEXTUAL_CANON = {'duration-unit-d': 'd', 'duration-unit-h': 'h', 'duration-unit-m': 'm', 'duration-unit-s': 's', 'duration-unit-ms': 'ms', 'duration-prefix-t': 'T', 'date-prefix-d': 'D'}
+
+def _word_bytes(bits, word):
+    it = iter(bits); out = []
+    for ch in word: out.append(next(it)[0] if ch.isalpha() else ord(ch))
+    return out
+
+@replay_factory('textual_keyword')
+def _replay_textual(canon, src):
+    def rp(ctx):
+        r0 = ctx.replay({'cmd': 'parse_eq', 'a': canon, 'b': src})
+        if 'panic' in r0: return True, r0
+        return not (r0.get('a_ok') and r0.get('b_ok') and r0.get('equal')), {'canonical': canon[-80:], 'respelled': src[-80:], 'result': {k: str(v)[:120] for k, v in r0.items()}}
+    return rp
+
+@kernel('K5 parser.textual_keywords_case')
+def k5(ctx, kr):
+    global _CTX
+    _CTX = ctx
+    kr.bounds = 'words the grammar recognises by comparing identifier text or through keyword tokens inside literals (%s): every upper/lower-case pattern of the word (one symbolic choice per letter) in one program template each; the respelled program must parse to the library of the canonical spelling' % ', '.join(TEXTUAL)
+    for part in par_map(_k5_job, [(n,) for n in TEXTUAL]): merge_part(kr, part)
+    P = ctx.program()
+    kr.functions = fn_paths(P, getattr(kr, '_enc', set()))[:100] + ['ironplc-parser::<TokenType as Logos>::lex (lifted)']
+    kr.stubs = LC.STUB_NOTES
+    kr.exhaustive = True
+    kr.outside = ['other textual keywords; mixed-case spellings combined with other constructs']
+
+# ---------------------------------------------------------------------------------------------- K6 semantic rules under re-spelling
+@kernel('K6 rules.verdict_under_respelling')
+def k6(ctx, kr):
+    from . import C02 as K02
+    K02._CTX = ctx
+    rules = list(K02.RULES)
+    kr.bounds = 'the C02 rule templates (%s) with identifiers symbolic over the template alphabet and every occurrence optionally written in upper case (one symbolic bit per occurrence): the verdict must be the documented verdict on the names' % ', '.join(rules)
+    for part in par_map(K02._rule_job, [(r, False, True) for r in rules]):
+        part.findings = [f for f in part.findings if f['role'].startswith('C08/')]
+        merge_part(kr, part)
+    P = ctx.program()
+    kr.functions = fn_paths(P, getattr(kr, '_enc', set()))
+    kr.exhaustive = True
+    kr.assumptions = ['upper-casing the ASCII letters of an identifier is the re-spelling considered; Id / Type compare and hash by their lower-case form (K4)']
+    kr.outside = ['rules without a template; re-spelling of keywords (K1a, K5); mixed-case spellings']
+
+KERNELS = [k1a, k1b, k2, k4, k5, k6]
